@@ -275,3 +275,100 @@ def judge_file(src: str, fname: str, result: dict) -> list[tuple[str, str]]:
             bad.append((f"test-{outcome}:{ec}{extra}", f"{fname}::{f.name} reported {outcome}: {detail[:300]}"))
         _ = key
     return bad
+
+
+
+# ------------------------------------------------------------------------------------------------
+# cause analysis for a failing value assertion: made stale by statement minimisation?
+def _item_key(n: ast.AST) -> str:
+    """Statements are compared by their right-hand side: removing a later reader turns
+    `var = f()` into the expression statement `f()` (remove_unused_variables)."""
+    if isinstance(n, ast.Assign) and len(n.targets) == 1 and isinstance(n.targets[0], ast.Name):
+        return "S:" + ast.dump(n.value)
+    if isinstance(n, ast.Expr):
+        return "S:" + ast.dump(n.value)
+    return ("A:" if isinstance(n, ast.Assert) else "C:") + ast.dump(n)
+
+
+def _align(pre_keys: list[str], post_keys: list[str]):
+    """Greedy subsequence embedding of post in pre: list of pre indices, or None."""
+    idx, j = [], 0
+    for k in post_keys:
+        while j < len(pre_keys) and pre_keys[j] != k:
+            j += 1
+        if j == len(pre_keys):
+            return None
+        idx.append(j)
+        j += 1
+    return idx
+
+
+def _lookup(result: dict, fname: str, func: str):
+    hit = [v for k, v in result["tests"].items() if k[1] == func and (k[0] == fname or fname[:-3] in k[0])]
+    return hit[0] if hit else None
+
+
+def stale_after_minimisation(src: str, result: dict, pre_src: str, pre_result: dict, fname: str) -> dict[str, str]:
+    """Functions of the exported file whose failing value assertion is verifiably caused by statement
+    minimisation: (1) the function's items embed, in order, into a function of the suite exported right
+    before minimisation; (2) that function passes under pytest; (3) a statement that was removed and
+    stood before the failing assertion reads the asserted variable or a variable its binding statement
+    reads (a call on the same object).  Returns {function: explanation}."""
+    out: dict[str, str] = {}
+    try:
+        post, pre = ast.parse(src), ast.parse(pre_src)
+    except SyntaxError:
+        return out
+    pre_funcs = test_functions(pre)
+    for f in test_functions(post):
+        if any(is_xfail_decorator(d) for d in f.decorator_list):
+            continue
+        r = _lookup(result, fname, f.name)
+        if not r or r[0] != "failed" or exc_class(r[1]) != "AssertionError" or assertion_class(r[1], src) != "value":
+            continue
+        m = re.search(r"^>\s+assert (.*)$", r[1], re.M)
+        if not m:
+            continue
+        try:
+            failing = ast.dump(ast.parse("assert " + m.group(1)).body[0])
+        except SyntaxError:
+            continue
+        post_keys = [_item_key(n) for n in f.body]
+        if "A:" + failing not in post_keys:
+            continue
+        fail_pos = post_keys.index("A:" + failing)
+        test = ast.parse("assert " + m.group(1)).body[0].test
+        left = test.left if isinstance(test, ast.Compare) else test
+        if isinstance(left, ast.Call) and left.args:
+            left = left.args[0]
+        while isinstance(left, ast.Attribute):
+            left = left.value
+        if not (isinstance(left, ast.Name) and re.fullmatch(r"var_\d+", left.id)):
+            continue
+        objs = {left.id}          # backward dependencies of the asserted variable (transitive)
+        grew = True
+        while grew:
+            grew = False
+            for n in f.body[:fail_pos]:
+                if isinstance(n, ast.Assign) and any(isinstance(t, ast.Name) and t.id in objs for t in n.targets):
+                    more = {x for x in names_of(n)[0] if re.fullmatch(r"var_\d+", x)} - objs
+                    if more:
+                        objs |= more
+                        grew = True
+        for g in pre_funcs:
+            pre_keys = [_item_key(n) for n in g.body]
+            # only the part up to the failing assertion matters (the snapshot lacks the exception tail)
+            emb = _align(pre_keys, post_keys[: fail_pos + 1])
+            if emb is None:
+                continue
+            pr = _lookup(pre_result, fname, g.name)
+            if not pr or pr[0] != "passed":
+                continue
+            kept = set(emb)
+            culprits = [ast.unparse(g.body[i]) for i in range(emb[fail_pos]) if i not in kept
+                        and not isinstance(g.body[i], ast.Assert) and names_of(g.body[i])[0] & objs]
+            if culprits:
+                out[f.name] = (f"before statement minimisation the test ({g.name} of the pre-minimisation export) passes; "
+                               f"removed before the failing assertion: {culprits[:3]}")
+                break
+    return out
